@@ -909,6 +909,111 @@ fn ops3json(d: &[u8], ops: &str) -> String {
     format!("ok {} e={} {}", rcs_str(&rcs), any_err as u8, serde_json::to_string(&r).unwrap())
 }
 
+#[repr(C)]
+struct CRpuList {
+    list: *const *mut dolby_vision::c_structs::RpuOpaque,
+    len: usize,
+    error: *const c_char,
+}
+
+fn temp_file(d: &[u8], tag: &str) -> String {
+    use std::io::Write;
+    let dir = std::env::var("VERIF_WORK").unwrap_or_else(|_| "/verif/build/work".to_string());
+    let path = format!("{}/{}-{}.bin", dir, tag, std::process::id());
+    let mut f = std::fs::File::create(&path).unwrap();
+    f.write_all(d).unwrap();
+    path
+}
+
+/// `dovi_parse_rpu_bin_file` -> every handle of the list written with `dovi_write_rpu` -> `dovi_rpu_list_free`:
+/// `ok <n> <hex>,<hex>,…` | `err` (error string set, list empty) | `inconsistent:…`
+unsafe fn list_c(d: &[u8]) -> String {
+    unsafe {
+        let path = temp_file(d, "c20l");
+        let cp = std::ffi::CString::new(path.clone()).unwrap();
+        let l = dovi_parse_rpu_bin_file(cp.as_ptr()) as *const CRpuList;
+        let _ = std::fs::remove_file(&path);
+        if l.is_null() {
+            return "inconsistent:null-list".to_string();
+        }
+        let has_err = !(*l).error.is_null();
+        let n = (*l).len;
+        let res = if has_err {
+            if n != 0 || !(*l).list.is_null() {
+                "inconsistent:error-and-list".to_string()
+            } else if CStr::from_ptr((*l).error).to_bytes().is_empty() {
+                "inconsistent:empty-error-string".to_string()
+            } else {
+                "err".to_string()
+            }
+        } else if (*l).list.is_null() {
+            "inconsistent:no-error-no-list".to_string()
+        } else {
+            let hs = std::slice::from_raw_parts((*l).list, n);
+            let mut outs = Vec::new();
+            for h in hs {
+                if h.is_null() || !dovi_rpu_get_error(*h).is_null() {
+                    outs.push("bad-handle".to_string());
+                } else {
+                    outs.push(take_data(dovi_write_rpu(*h)));
+                }
+            }
+            format!("ok {} {}", n, if outs.is_empty() { "-".to_string() } else { outs.join(",") })
+        };
+        dovi_rpu_list_free(l as *const dolby_vision::c_structs::RpuOpaqueList);
+        res
+    }
+}
+
+fn list_rust(d: &[u8]) -> String {
+    let path = temp_file(d, "c20r");
+    let r = dolby_vision::rpu::utils::parse_rpu_file(&path);
+    let _ = std::fs::remove_file(&path);
+    match r {
+        Err(_) => "err".to_string(),
+        Ok(rpus) => {
+            let outs: Vec<String> = rpus
+                .iter()
+                .map(|r| match r.write_rpu() {
+                    Ok(o) => hex(&o),
+                    Err(_) => "null".to_string(),
+                })
+                .collect();
+            format!("ok {} {}", rpus.len(), if outs.is_empty() { "-".to_string() } else { outs.join(",") })
+        }
+    }
+}
+
+/// every function documented to accept a null pointer is called with one and must return
+unsafe fn nulls() -> String {
+    unsafe {
+        let l = dovi_parse_rpu_bin_file(std::ptr::null());
+        let a = l.is_null();
+        dovi_rpu_list_free(std::ptr::null());
+        dovi_rpu_free(std::ptr::null_mut());
+        dovi_data_free(std::ptr::null());
+        dovi_rpu_free_header(std::ptr::null());
+        dovi_rpu_free_data_mapping(std::ptr::null());
+        dovi_rpu_free_vdr_dm_data(std::ptr::null());
+        let e = dovi_rpu_get_error(std::ptr::null());
+        let h = dovi_rpu_get_header(std::ptr::null());
+        let m = dovi_rpu_get_data_mapping(std::ptr::null());
+        let d = dovi_rpu_get_vdr_dm_data(std::ptr::null());
+        let w = dovi_write_rpu(std::ptr::null_mut());
+        let c = dovi_convert_rpu_with_mode(std::ptr::null_mut(), 2);
+        format!(
+            "ok file={} err={} hdr={} map={} dm={} write={} convert={}",
+            a as u8,
+            e.is_null() as u8,
+            h.is_null() as u8,
+            m.is_null() as u8,
+            d.is_null() as u8,
+            w.is_null() as u8,
+            c
+        )
+    }
+}
+
 fn ops3(d: &[u8], ops: &str) -> String {
     let mut r = match DoviRpu::parse_rpu(d) {
         Ok(r) => r,
@@ -974,6 +1079,9 @@ pub fn run(parts: &[&str]) -> String {
         "capi.seq" if parts.len() == 3 => unsafe { seq(&unhex(parts[1]), parts[2]) },
         "rpu.ops3" if parts.len() == 3 => ops3(&unhex(parts[1]), parts[2]),
         "capi.seqview" if parts.len() == 3 => unsafe { seqview(&unhex(parts[1]), parts[2]) },
+        "capi.list" if parts.len() == 2 => unsafe { list_c(&unhex(parts[1])) },
+        "rpu.filelist" if parts.len() == 2 => list_rust(&unhex(parts[1])),
+        "capi.nulls" => unsafe { nulls() },
         "rpu.ops3json" if parts.len() == 3 => ops3json(&unhex(parts[1]), parts[2]),
         "capi.layout" => layout(),
         _ => "bad-op".to_string(),
